@@ -580,7 +580,9 @@ def c_gsupp(ip, st, args, kw, node):
 
 
 def c_lipschitz(ip, st, args, kw, node):
-    return newarr(st, 'lips', z3.Int('n_features'))
+    # one constant per item: per feature for the single-task datafits, per group for the group datafits (shape contract of the
+    # datafit's get_lipschitz, checked on the real methods by C09's tasks)
+    return newarr(st, 'lips', z3.Int(st.ghost.get('items', 'n_features')))
 
 
 def c_global_lipschitz(ip, st, args, kw, node):
@@ -593,11 +595,43 @@ def c_initialize(ip, st, args, kw, node):
     return SNone()
 
 
+def shape_preconditions(ip, st, name, w, Xw, lips, ws, node, w_full=False):
+    """C20, caller side: the shapes a compiled epoch kernel relies on (it indexes w[j], lipschitz[j] / X[:, j] for j in ws and
+    Xw[i] for every sample) are established at the call site, for every size:
+        len(w view) == n_features, len(Xw) == n_samples, len(lipschitz) == number of items, every entry of ws in [0, items)"""
+    nf, ns = z3.Int('n_features'), z3.Int('n_samples')
+    items = z3.Int(st.ghost.get('items', 'n_features'))
+    if isinstance(w, SArr) and w_full:
+        # prox-Newton kernels take the whole coefficient vector (intercept entry last) and the fit_intercept flag
+        fi = st.ghost.get('fit_intercept')
+        obl(st, f'{name}:len(w-argument)==n_features+fit_intercept', st.vlen(w) == nf + z3.If(fi, 1, 0), node, prop='C20')
+    elif isinstance(w, SArr):
+        obl(st, f'{name}:len(w-argument)==n_features', st.vlen(w) == nf, node, prop='C20')
+    if isinstance(Xw, SArr):
+        obl(st, f'{name}:len(Xw-argument)==n_samples', st.vlen(Xw) == ns, node, prop='C20')
+    if isinstance(lips, SArr):
+        obl(st, f'{name}:len(lipschitz)==number-of-items', st.vlen(lips) == items, node, prop='C20')
+    if isinstance(ws, SArr) and ws.kind == 'i':
+        k = fresh(I, 'k')
+        pos = st.lo(ws) + k
+        inst = [qf(pos) for qf in st.qfacts] + [qf(k) for qf in st.qfacts]
+        v = seli(st.ver(ws), pos)
+        goal = z3.Implies(z3.And(k >= 0, k < st.vlen(ws)), z3.And(v >= 0, v < items))
+        SITE_OBLS.append(dict(name=f'{name}:working-set-entries-in-[0,items)', pc=list(st.pc) + inst, qf=[], goal=goal,
+                              line=getattr(node, 'lineno', None), info=dict(prop='C20')))
+
+
+def index_check(ip, st, arr, i, n):
+    """C20: a scalar subscript a[i] in a `_solve` is inside its array:  -len <= i < len"""
+    obl(st, 'scalar-subscript-in-bounds', z3.And(i >= -n, i < n), None, prop='C20', line_hint=None)
+
+
 def kernel_contract(name, wpos, xpos, preserves_inv=True):
     """an epoch kernel: modifies (w-slice, Xw) in place and preserves Xw - X w[:p] (kernel-level contract,
     discharged separately on the real kernel with front end S)"""
     def h(ip, st, args, kw, node):
         w, Xw = args[wpos], args[xpos]
+        shape_preconditions(ip, st, name, w, Xw, args[xpos + 1] if len(args) > xpos + 1 else None, args[-1], node)
         pr = get_pair(st, w.loc, Xw.loc) if preserves_inv else None
         for a in (w, Xw):
             st.bump(a.loc, name, node, kernel=name, kernel_pair=((w.loc, Xw.loc) if preserves_inv else None))
@@ -613,6 +647,7 @@ def descent_direction(wpos, xpos, wspos, n_out=3):
     (kernel-level contract); pure"""
     def h(ip, st, args, kw, node):
         w, Xw, ws = args[wpos], args[xpos], args[wspos]
+        shape_preconditions(ip, st, '_descent_direction', w, Xw, None, ws, node, w_full=True)
         d = newarr(st, 'delta_w_ws')
         xd = newarr(st, 'X_delta_w_ws', st.vlen(Xw))
         lp = newarr(st, 'lipschitz_ws', st.vlen(ws))
@@ -626,6 +661,7 @@ def line_search(name, wpos, xpos, dpos, xdpos, wspos):
     pair (delta, X_delta) is the consistent direction returned by one _descent_direction call on the same ws"""
     def h(ip, st, args, kw, node):
         w, Xw, d, xd, ws = args[wpos], args[xpos], args[dpos], args[xdpos], args[wspos]
+        shape_preconditions(ip, st, name, w, Xw, None, ws, node, w_full=True)
         g = st.ghost.get('direction', {}).get(d.loc) if isinstance(d, SArr) else None
         ok = bool(g and isinstance(xd, SArr) and g['xd'] == xd.loc and g['dv'].eq(st.ver(d)) and g['xdv'].eq(st.ver(xd))
                   and g['ws'] == ws.loc and g['wsv'].eq(st.ver(ws)))
@@ -745,6 +781,7 @@ def attr_shape(ip, st, base, node):
 
 
 BASE_CALLS = {
+    'index-check': index_check,
     'np.zeros': c_zeros, 'np.empty': c_zeros, 'np.arange': c_arange, 'np.ones': c_ones, 'np.zeros_like': c_zeros_like,
     '*.sum': c_sum, 'np.sum': c_sum, 'np.max': c_npmax, 'max': c_max, 'min': c_min, 'np.abs': c_abs, 'abs': c_abs,
     'len': c_len, 'print': c_noop, 'warnings.warn': c_noop, 'ValueError': c_opaque, 'AttributeError': c_opaque,
